@@ -238,6 +238,21 @@ pub fn check_state(sim: &mut Sim, snap: &VerifSnapshot, m: Mon, ex: &mut Exercis
             }
         }
     }
+    // C17: the cleanup set is consistent with the states of the offered jobs' consumers (the same state
+    // predicate as C13's offered-downstream-unfinished, judged under C17's name: seeded change C17-A-r6)
+    if on(m, 17) {
+        for j in 0..n {
+            let id = &g.jobs[j].id;
+            if cleanup.contains(id) {
+                ex.hit("C17.offered-consumers");
+                for d in g.downs(j) {
+                    if !is_finished_state(st(d)) {
+                        v.push(viol("C17", "cleanup-offer-vs-consumer-state", format!("{} is in the cleanup set, consumer {} is {:?}", id, g.jobs[d].id, st(d))));
+                    }
+                }
+            }
+        }
+    }
     if on(m, 13) {
         for j in 0..n {
             let id = &g.jobs[j].id;
